@@ -690,7 +690,9 @@ impl Scenario for GlobalRouting {
             r.fault("handle_forgotten", 1);
         }
         r.states = st.into_iter().collect();
-        r.violation = check_c17(plan, &h, &hs);
+        if !matches!(failure, Some(detsim::Failure::StepLimit { .. })) {
+            r.violation = check_c17(plan, &h, &hs);
+        }
         r.sample = Some(json!({"threads": plan.get("threads"), "ops": ops.iter().take(40).map(|o| format!("[{}..{}] t{} {} {} -> {}", o.inv, o.ret, o.tno, o.name, o.spec, o.outcome)).collect::<Vec<_>>()}));
         if r.violation.is_none() {
             match failure {
